@@ -169,8 +169,16 @@ func durText(ms int64) string {
 func (s *Scenario) selText(n Node) string {
 	var name string
 	var ms []string
+	names := 0
 	for _, m := range n.M {
-		if m.N == "__name__" && m.T == "=" && name == "" && isIdent(m.V) {
+		if m.N == "__name__" {
+			names++
+		}
+	}
+	for _, m := range n.M {
+		// (with several matchers on the metric name all of them go inside the braces: the parser
+		// rejects a name given twice)
+		if names == 1 && m.N == "__name__" && m.T == "=" && name == "" && isIdent(m.V) {
 			name = m.V
 			continue
 		}
